@@ -138,7 +138,22 @@ pub fn plain_name(n: &str) -> String {
 fn decorate(f: &mut gherkin::Feature, decor: &str) {
     let d = |s: &mut String| s.push_str(decor);
     d(&mut f.name);
-    let steps = |v: &mut Vec<gherkin::Step>| v.iter_mut().for_each(|st| d(&mut st.value));
+    // decorated universes also carry a doc string and a data table on every
+    // step (printed by the terminal / JUnit writers at higher verbosity)
+    let steps = |v: &mut Vec<gherkin::Step>| {
+        v.iter_mut().for_each(|st| {
+            d(&mut st.value);
+            st.docstring = Some("doc line 1\n  doc line 2".into());
+            st.table = Some(gherkin::Table {
+                rows: vec![
+                    vec!["a".into(), "bb".into()],
+                    vec!["ccc".into(), "d".into()],
+                ],
+                span: gherkin::Span { start: 0, end: 0 },
+                position: gherkin::LineCol { line: 1, col: 1 },
+            });
+        });
+    };
     if let Some(b) = f.background.as_mut() {
         steps(&mut b.steps);
     }
@@ -494,27 +509,31 @@ where
         })
 }
 
-/// Drives two instances of the pipeline through the real `Cucumber` event
+type App<W, Wr> =
+    cucumber::Cucumber<W, NoFeatures, (), ReplayRunner<W>, Wr, cli::Empty>;
+
+/// Drives two instances of the application through the real `Cucumber` event
 /// loop: `run()` hands the writer back (statistics, `execution_has_failed`),
 /// `run_and_exit()` shows whether the process would exit with a failure.
-fn finish<W, Wr>(mk: &dyn Fn() -> Wr, cli: &Wr::Cli, items: &[Item<W>]) -> Value
+fn finish<W, Wr>(mkapp: &dyn Fn() -> App<W, Wr>) -> Value
 where
     W: World,
     Wr: Writer<W> + Stats<W> + writer::Normalized,
-    Wr::Cli: Clone,
 {
-    let wr = futures::executor::block_on(app(mk(), cli, items).run(()));
+    let wr = futures::executor::block_on(mkapp().run(()));
     let mut v = stats_json(&wr);
     let prev = panic::take_hook();
     panic::set_hook(Box::new(|_| {}));
     let r = panic::catch_unwind(AssertUnwindSafe(|| {
-        futures::executor::block_on(app(mk(), cli, items).run_and_exit(()));
+        futures::executor::block_on(mkapp().run_and_exit(()));
     }));
     panic::set_hook(prev);
     v["exit_failed"] = json!(r.is_err());
     v
 }
 
+/// The wrappers are put on with the `Cucumber` builder methods
+/// (`fail_on_skipped()`, `repeat_failed()`), as an application does.
 fn wrap_and_run<W, Wr>(
     mk: &dyn Fn() -> Wr,
     cli: &Wr::Cli,
@@ -528,12 +547,12 @@ where
     Wr::Cli: Clone,
 {
     match (fos, rep) {
-        (false, false) => finish(mk, cli, items),
-        (true, false) => finish(&|| FailOnSkipped::new(mk()), cli, items),
-        (false, true) => finish(&|| Repeat::failed(mk()), cli, items),
-        (true, true) => {
-            finish(&|| FailOnSkipped::new(Repeat::failed(mk())), cli, items)
-        }
+        (false, false) => finish(&|| app(mk(), cli, items)),
+        (true, false) => finish(&|| app(mk(), cli, items).fail_on_skipped()),
+        (false, true) => finish(&|| app(mk(), cli, items).repeat_failed()),
+        (true, true) => finish(&|| {
+            app(mk(), cli, items).repeat_failed().fail_on_skipped()
+        }),
     }
 }
 
